@@ -77,6 +77,10 @@ def gen_spec(rng):
           "subline_page_by": 1, "nested": rng.choice([2, 3])}[strategy]
     sb = {"subline": rng.choice([1, 2]), "subline_page_by": 1}.get(strategy, 0)
     ncols = max(rng.randint(1, 6), pg + sb + 1)
+    if rng.random() < 0.1:
+        # wide tables: 9..14 columns, the removed grouping columns anywhere among them (also beyond position 7)
+        ncols = rng.randint(9, 14)
+        n = min(n, 14)
     df, meta = G.gen_df(rng, n, ncols, group_cols=pg, subline_cols=sb, key=False, maxruns=3)
     # every non-grouping cell carries its original position
     grouping = set(meta["page_by"]) | set(meta["subline_by"])
